@@ -223,10 +223,14 @@ def normalize_opacity(H):
     sh = H.call(SVGPath, d="M0,0 L1,1", fill=fill, stroke=stroke, opacity=o, fill_opacity=fo, stroke_opacity=so)
     out = H.call(SVGShape.normalize_opacity, sh, inplace=True)
     H.prove(out is sh, "normalize_opacity.inplace_returns_same_shape")
+    # the alpha a renderer uses is opacity x clamp(fill-opacity): each opacity is clamped to [0, 1] before it is used
+    from pyvc.sym import smax, smin
+
+    clamp = (lambda v: smax(0, smin(1, v))) if H.mode == "sym" else (lambda v: max(0.0, min(1.0, v)))
     if fill != "none":
-        H.prove(H.close(out.opacity * out.fill_opacity, o * fo), "normalize_opacity.fill_alpha_unchanged")
+        H.prove(H.close(out.opacity * clamp(out.fill_opacity), o * clamp(fo)), "normalize_opacity.fill_alpha_unchanged")
     if stroke != "none":
-        H.prove(H.close(out.opacity * out.stroke_opacity, o * so), "normalize_opacity.stroke_alpha_unchanged")
+        H.prove(H.close(out.opacity * clamp(out.stroke_opacity), o * clamp(so)), "normalize_opacity.stroke_alpha_unchanged")
     if stroke == "none" and fill != "none":
         H.prove(H.close(out.fill_opacity, 1.0), "normalize_opacity.fill_opacity_folded_into_opacity")
     H.prove(out.fill == fill and out.stroke == stroke, "normalize_opacity.paints_untouched")
